@@ -109,7 +109,11 @@ def run(ctx):
              "early morning", "very late evening tomorrow", "8 8", "morgen früh um 8", "next week monday 10-12",
              # sequences that START with a pattern which occurs again further on (joiners, 'of', 'für', 'next week')
              "und 8 bis 9", "- 1.1. bis 3.1.", "zum 5. bis 7. mai", "of 5th of may", "für 3.3.2021 für 2 tage", "- 8:00 - 9:00",
-             "bis montag bis 12", "and 5.3.2021 and 7.3.2021", "to 9 to 5", "next week monday next week", "am am montag"]
+             "bis montag bis 12", "and 5.3.2021 and 7.3.2021", "to 9 to 5", "next week monday next week", "am am montag",
+             # two directly neighbouring matches of the SAME single-pattern rule (the second must be tried as a match position of its own,
+             # also when the rule declines the first)
+             "donnerstag freitag", "montag dienstag mittwoch", "30.02 01.03", "31.02.2020 01.03.2020", "1401 1400", "8 9", "5. 6.",
+             "morgen übermorgen", "september oktober", "abends nachts", "31.4. 1.5. 2.5."]
     texts += [(t, (2018, 3, 7, 12, 43)) for t in G.soups(rnd, 150 if ctx.quick else 1500, 2, 4)]
     texts += [(t, (2018, 3, 7, 12, 43)) for t in extra]
     nkeep = len(extra) + (150 if ctx.quick else 1500)
